@@ -17,6 +17,7 @@ mod m_http;
 mod m_pool;
 mod m_tcp;
 mod m_tls;
+mod m_tot;
 mod m_db;
 mod m_filter;
 
@@ -42,6 +43,7 @@ fn main() {
         "pool" => m_pool::run(&mut input, &mut out, rest),
         "ana" => m_ana::run(&mut input, &mut out, rest),
         "res" => m_res::run(&mut input, &mut out, rest),
+        "tot" => m_tot::run(&mut input, &mut out, rest),
         m => {
             eprintln!("unknown mode {m}");
             std::process::exit(2);
